@@ -36,6 +36,10 @@ WITNESSES = [
     'a{$x:1px; @for $i from 1 through 8 {$x: $x*$x} b:$x}',
     '@function f(){@return f()} a{b:f()}',
     '@mixin m{@include m} a{@include m}',
+    '$c: call(get-function("calc", $css: true), 1, 2); a{b: calc($c)}',
+    'a{b: ' + '+'.join(['1'] * 30000) + '}',
+    'a{b: ' + '*'.join(['2'] * 30000) + '}',
+    ' '.join(['.a'] * 20000) + '{b:c}',
 ]
 
 
@@ -73,8 +77,24 @@ def signature(case, r):
         s = 'abort|%s' % (r.get('signal') or r.get('rc'))
         if gen.recursion_suspect(case_text(case)):
             s += '|user-level-recursion'
+        elif case.get('family') in ('longflat', 'witness'):
+            t = case_text(case)
+            flat = longflat_kind(t)
+            if flat:
+                s += '|long-flat-' + flat
         return s
     return None
+
+
+def longflat_kind(t):
+    """which kind of long flat chain (>= 5000 operands) the input is, if any - computed from the input text"""
+    if len(t) < 10000 or gen.nest_depth(t) > 3:
+        return None
+    for name, pat in (('sum', r'(?:\d\+){5000}'), ('product', r'(?:\d\*){5000}'), ('minus', r'(?:\d - ){5000}'), ('descendant', r'(?:\.a ){5000}'),
+                      ('child', r'(?:\.a>){5000}'), ('string-concat', r'(?:"s"\+){3000}'), ('and', r'(?:true and ){3000}'), ('eq-chain', r'(?:\d == ){3000}')):
+        if re.search(pat, t):
+            return name
+    return 'other'
 
 
 def case_bytes(case):
@@ -383,7 +403,49 @@ def cfg(rng, case):
     return case
 
 
-FAMILIES = [('amp', fam_amp, 10), ('color', fam_color, 10), ('for', fam_for, 5), ('units', fam_units, 6),
+def fam_longflat(rng):
+    """Long FLAT inputs: nesting depth 1..2, tens of thousands of operands (inside the 64 KiB / depth 64 precondition)."""
+    n = rng.choice([200, 2000, 8000, 15000, 30000])
+    k = rng.choice(['sum', 'product', 'minus', 'and', 'eq-chain', 'space-list', 'comma-list', 'descendant', 'child', 'compound', 'selector-list',
+                    'args', 'declarations', 'rules', 'string-concat', 'interpolations', 'map', 'if-chain'])
+    if k == 'sum':
+        return 'a{b: ' + '+'.join(['1'] * n) + '}'
+    if k == 'product':
+        return 'a{b: ' + '*'.join(['1'] * n) + '}'
+    if k == 'minus':
+        return 'a{b: ' + ' - '.join(['1'] * n) + '}'
+    if k == 'and':
+        return 'a{b: ' + ' and '.join(['true'] * min(n, 10000)) + '}'
+    if k == 'eq-chain':
+        return 'a{b: ' + ' == '.join(['1'] * min(n, 12000)) + '}'
+    if k == 'space-list':
+        return 'a{b: ' + ' '.join(['x'] * n) + '}'
+    if k == 'comma-list':
+        return 'a{b: ' + ','.join(['1'] * n) + '}'
+    if k == 'descendant':
+        return ' '.join(['.a'] * min(n, 20000)) + '{b:c}'
+    if k == 'child':
+        return '>'.join(['.a'] * min(n, 20000)) + '{b:c}'
+    if k == 'compound':
+        return '.a' + '.b' * min(n, 30000) + '{b:c}'
+    if k == 'selector-list':
+        return ','.join(['.a'] * min(n, 20000)) + '{b:c}'
+    if k == 'args':
+        return 'a{b: f(' + ','.join(['1'] * n) + ')}'
+    if k == 'declarations':
+        return 'a{' + 'b:c;' * min(n, 15000) + '}'
+    if k == 'rules':
+        return 'a{b:c}' * min(n, 10000)
+    if k == 'string-concat':
+        return 'a{b: ' + '+'.join(['"s"'] * min(n, 15000)) + '}'
+    if k == 'interpolations':
+        return 'a{b: ' + '#{1}' * min(n, 15000) + '}'
+    if k == 'map':
+        return '$m: (' + ','.join('k%d:%d' % (i, i) for i in range(min(n, 6000))) + '); a{b: length($m)}'
+    return '@if false {a{b:c}} ' + ' '.join('@else if false {a{b:c}}' for _ in range(min(n, 2500))) + ' @else {a{b:d}}'
+
+
+FAMILIES = [('longflat', fam_longflat, 2), ('amp', fam_amp, 10), ('color', fam_color, 10), ('for', fam_for, 5), ('units', fam_units, 6),
             ('nest', fam_nest, 10), ('value', fam_value, 18), ('call', fam_call, 18), ('errpos', fam_errpos, 8),
             ('mutate', None, 12), ('corpus', None, 6)]
 
